@@ -1,6 +1,7 @@
 package rules
 
 import (
+	"sort"
 	"go/token"
 	"go/types"
 
@@ -480,6 +481,26 @@ func c02(c *core.Ctx) {
 		walk(insert)
 		c.Floor("mutators-in-InsertBlock", n, 3)
 		// the pre-check helper is read-only with respect to those mutators
+		// VerifyAndSeal itself decides; it changes nothing: none of the mutators is called in its call-graph closure (a refused block that
+		// cleans the pool, records an evil deputy or saves a confirm has had an effect)
+		vasFn := c.Fn(cons + ".DPoVP.VerifyAndSeal")
+		reached := cgClosure(c, []*ssa.Function{vasFn}, func(*ssa.Function) bool { return false })
+		c.Floor("VerifyAndSeal/closure", len(reached), 50)
+		var rf []*ssa.Function
+		for f := range reached {
+			rf = append(rf, f)
+		}
+		sort.Slice(rf, func(i, j int) bool { return rf[i].String() < rf[j].String() })
+		for _, f := range rf {
+			for _, ci := range core.CallsIn(f, muts...) {
+				c.Check("VerifyAndSeal:no-mutator/"+objName(core.CalleeObj(ci))+"@"+shortFn(f), "no-call", false, ci.Pos(), "deciding about a block must not change the chain, the pool, the replay guard or the deputy records: %s is reached from VerifyAndSeal (%s)", objName(core.CalleeObj(ci)), closurePath(reached, f))
+			}
+		}
+		c.Check("VerifyAndSeal:no-mutator", "no-call", true, vasFn.Pos(), "no chain-state mutator in the closure of VerifyAndSeal (%d functions)", len(reached))
+		// (written out inside InsertBlock, the pre-check is covered by the rule above: no mutator before VerifyAndSeal accepted)
+		if c.InlinedAway(cons + ".DPoVP.isIgnorableBlock") {
+			return
+		}
 		ign := c.Fn(cons + ".DPoVP.isIgnorableBlock")
 		c.Check("isIgnorableBlock:no-mutator", "no-call", len(core.CallsInDeep(ign, muts...)) == 0, ign.Pos(), "the duplicate/old-block pre-check must not call a chain-state mutator")
 	})
